@@ -67,6 +67,8 @@ def gen_case(rng, radii_z):
         c["lat"] = [a] + [rng.choice([None, round(rng.uniform(2, 12), 3)]) for _ in range(2)] + \
                    [rng.choice([None, 90, 60, 120, round(rng.uniform(50, 130), 2)]) for _ in range(3)]
         c["how"] = rng.choice(["kw", "pos"])
+        # how many leading lattice parameters are given positionally (the rest by keyword): volume(*args, **kw)
+        c["npos"] = rng.choice([0, 1, 1, 1, 2, 2, 3, 4, 5, 6])
     return c
 
 
@@ -304,6 +306,29 @@ def run_case(run, c, reply, tbl, formula, Formula, me):
                 v = f.volume(*pos, **kw2)
             else:
                 v = f.volume(**kw)
+            # every split of the same parameters into a positional prefix and keywords is the same cell (a single
+            # positional argument WITHOUT keywords is documented as a packing factor, so that split is not made)
+            lead = 0
+            while lead < 6 and c["lat"][lead] is not None:
+                lead += 1
+            npos = min(c.get("npos", 0), lead)
+            names6 = ["a", "b", "c", "alpha", "beta", "gamma"]
+            kw3 = {n: x for n, x in zip(names6[npos:], c["lat"][npos:]) if x is not None}
+            if npos >= 2 or (npos == 1 and kw3):
+                inp["call"] = "volume(%s)" % ", ".join([repr(x) for x in c["lat"][:npos]] +
+                                                         ["%s=%r" % kv for kv in kw3.items()])
+                run.count(key=("lattice-split", repr(c["lat"]), npos), nontrivial=True, tag="lattice-pos%d" % npos)
+                try:
+                    v3 = f.volume(*c["lat"][:npos], **kw3)
+                except ValueError:
+                    raise
+                except Exception as e:  # noqa
+                    viol("volume with the spacing(s) positional and the other lattice parameters by keyword raised "
+                         "%s: %s" % (type(e).__name__, str(e)[:60]), call=inp["call"])
+                    return
+                if not close(v3, v, rel=1e-12):
+                    viol("the lattice volume depends on which parameters are positional and which are keywords",
+                         call=inp["call"], got=v3, all_keywords=v)
         except ValueError:
             # not a valid cell (negative radicand): outside the property's quantifier; the model's
             # Float square root is NaN there
